@@ -298,9 +298,17 @@ def run(ctx):
     c17.check_one(_Renumber(ctx, {5: 4}, drop=(1, 2, 3, 4, 6)), "tmpl", "template", always_single=True)
     for key_ in ("naive", "tmpl", "priority", "priority-pool"):
         sched.ob_assignments_returned(ctx, 4, key_, key_)
+    for key_ in ("naive", "tmpl", "priority", "priority-pool", "overbook"):
+        sched.ob_no_mutation_while_iterating(ctx, 4, key_, key_)
     check_flag(ctx, 5)
     c06.check_reductions(ctx, 6)
     c06.check_divisions(ctx, 6)
+    # assertion hazards of the main loop and the killer: a pipeline is finished once (record_finish asserts), a container is killed
+    # only while it is alive and for a reason (kill() asserts); the clauses are C06#3/#4 and C11#1-#4 / C04#6
+    sm_, exc_ = c06.check_main_loop(_Renumber(ctx, {3: 6}), 3)
+    c06.check_sweep(_Renumber(ctx, {4: 6}), sm_, exc_, 4)
+    from . import c11
+    c11._run(_Renumber(ctx, {1: 6, 2: 6, 3: 6, 4: 6, 5: 6, 6: 6}))
     check_validation(ctx, 7)
     sh = c05.check_plan(_Renumber(ctx, {1: 8, 2: 8, 5: 8, 6: 8, 7: 8}))
     c05.check_tick_body(_Renumber(ctx, {4: 8, 5: 8, 6: 8, 7: 8}), sh)
@@ -562,6 +570,7 @@ def check_positivity(ctx, num=10):
         chooser = bool(pr.results) and all(ok for _t, ok in pr.results)
     except Exception:
         chooser = False
+    sched.ob_retry_record_plain(ctx, num)
     lem = {"retry": _retry_invariant(ctx, num), "chooser": chooser}
     job_ok = _job_ops_invariant(ctx, num)
     for key in sched.IN_PROCESS:
